@@ -244,8 +244,10 @@ class SymNum:
     def __int__(self):
         if self.is_int:
             return self.g._concretise(self)
-        self.g._engine_error('int() of a symbolic real')
-        return 0
+        # int() must hand back a Python int: truncate towards zero and enumerate the feasible values (each is a branch);
+        # finite only where the real is bounded on the path
+        t = z3.If(self.e >= 0, z3.ToInt(self.e), -z3.ToInt(-self.e))
+        return self.g._concretise(SymNum(self.g, t, True))
 
     def __float__(self):
         if self.is_int:
